@@ -46,6 +46,11 @@ THEOREMS = [
     "PorepyVerif.C01.ad_subst",
     "PorepyVerif.C01.excluded_sets",
     "PorepyVerif.C01.kinks_necessary",
+    "PorepyVerif.C01.table1_sound",
+    "PorepyVerif.C01.table2_sound",
+    "PorepyVerif.C01.dom_table_agrees",
+    "PorepyVerif.C01.inDom_sound",
+    "PorepyVerif.C01.prog_exact",
 ]
 LEAN_MODULES = ["PorepyVerif.C01.Props"]
 AUDIT = "PorepyVerif/C01/Audit.lean"
@@ -223,6 +228,18 @@ def _np_eval(t, X, Lv):
         key = _key_of(t["key"])
         r = a[key]
         return np.array([r]) if np.ndim(r) == 0 else r
+    if k == "copy":
+        return _np_eval(t["a"], X, Lv)
+    if k == "setitem":
+        a = np.array(_np_eval(t["a"], X, Lv), copy=True)
+        b = _np_eval(t["b"], X, Lv)
+        if np.iscomplexobj(b):
+            a = a.astype(complex)
+        n_rows = np.atleast_1d(np.arange(a.size)[_key_of(t["key"])]).size
+        if b.size != n_rows:
+            raise ValueError("size")
+        a[_key_of(t["key"])] = b
+        return a
     if k == "l2":
         a = _np_eval(t["a"], X, Lv)
         if a.size % t["dim"] != 0:
@@ -308,6 +325,15 @@ def _apply(t, a, b, c):
         return getattr(a, f"__{op}__")(c)
     if k == "slice":
         return a[_key_of(t["key"])]
+    if k == "copy":
+        return a.copy()
+    if k == "setitem":  # AdArray.__setitem__ with an AdArray value, on a copy (the method works in place by design)
+        import warnings
+        r = a.copy()
+        with warnings.catch_warnings():
+            warnings.simplefilter("ignore")
+            r[_key_of(t["key"])] = b
+        return r
     if k == "l2":
         return af.l2_norm(t["dim"], a)
     if k == "max":
@@ -343,7 +369,7 @@ def _impl_eval(t, ads, lets, watch=None):
         return lets[t["i"]]
     a = _impl_eval(t["a"], ads, lets, watch)
     b = None
-    if (k == "op" and t["kind"] == "Ad") or k == "max":
+    if (k == "op" and t["kind"] == "Ad") or k in ("max", "setitem"):
         b = a if t["b"] == "same" else _impl_eval(t["b"], ads, lets, watch)
     c = _const_operand(t)
     if watch is None:
@@ -411,6 +437,15 @@ def _model_tree(t, sizes, L=(), Lm=()):
         except IndexError:
             idx = [10 ** 6]  # out of range: the model answers IndexError
         return {"k": "slice", "idx": idx, "a": _model_tree(t["a"], sizes, L, Lm)}
+    if k == "copy":
+        return {"k": "copy", "a": _model_tree(t["a"], sizes, L, Lm)}
+    if k == "setitem":
+        n = size_of(t["a"], sizes, L)
+        try:
+            idx = [int(i) for i in np.atleast_1d(np.arange(n if n is not None else 0)[_key_of(t["key"])])]
+        except IndexError:
+            idx = [10 ** 6]
+        return {"k": "setitem", "idx": idx, "a": _model_tree(t["a"], sizes, L, Lm), "b": _model_tree(t["b"], sizes, L, Lm)}
     if k == "l2":
         return {"k": "l2", "dim": t["dim"], "a": _model_tree(t["a"], sizes, L, Lm)}
     if k == "max":
@@ -432,7 +467,7 @@ def model_decode(outs, case):
     o = outs[0]
     if "err" in o:
         return o
-    return {"val": [bits2f(b) for b in o["val"]], "jac": [[bits2f(b) for b in row] for row in o["jac"]]}
+    return {"val": [bits2f(b) for b in o["val"]], "jac": [[bits2f(b) for b in row] for row in o["jac"]], "dom": bool(o.get("dom"))}
 
 
 TOL = 1e-9
@@ -456,6 +491,9 @@ def compare(impl, model, case):
         return "impl runner crashed: " + impl["harness_exc"]
     if "err" in impl or "err" in model:
         return None if impl == model else f"error kinds: impl {impl.get('err', 'ok')} vs model {model.get('err', 'ok')}"
+    # the hypothesis of Props.prog_exact (InDom), evaluated by the driver: a case generated as smooth must satisfy it
+    if case.get("kind") == "smooth" and not model.get("dom") and not any(n.get("f") == REG for n in _case_nodes(case)):
+        return "the model finds a rule application outside its smooth domain (InDom false) in a case generated as smooth"
     d = _close_arr(impl["val"], model["val"], TOL)
     if d:
         return "val " + d
@@ -475,7 +513,7 @@ def _complex_step(tree, X, h=1e-30, L=()):
             Xc = [v.astype(complex) for v in X]
             Xc[vi][j] += 1j * h
             cols.append(np.imag(np_eval(tree, Xc, L)) / h)
-    return np.array(cols).T if cols else np.zeros((0, n))
+    return np.array(cols).T if cols else np.zeros((int(np.size(np_eval(tree, X, L))), n))
 
 
 def _central(tree, X, hh, L=()):
@@ -839,6 +877,25 @@ class _Gen:
                 key = {"t": "arr", "idx": [r.randrange(m) for _ in range(size)]}
         return {"k": "slice", "key": key, "a": child}
 
+    def mk_setitem(self, size, depth):
+        r = self.rng
+        a = self.tree(depth - 1, size)
+        if a is None:
+            return None
+        m = r.randint(1, size)
+        mode = r.choice(["arr", "slice", "int"] if m == 1 else ["arr", "slice"])
+        if mode == "int":
+            key = {"t": "int", "i": r.randrange(-size, size)}
+        elif mode == "arr":
+            key = {"t": "arr", "idx": r.sample(range(size), m)}  # distinct rows, any order
+        else:
+            start = r.randint(0, size - m)
+            key = {"t": "slice", "start": start, "stop": start + m, "step": 1}
+        b = self.tree(r.randint(0, depth - 1), m)
+        if b is None:
+            return None
+        return {"k": "setitem", "key": key, "a": a, "b": b}
+
     def mk_max(self, size, depth):
         r = self.rng
         a = self.tree(depth - 1, size)
@@ -865,7 +922,7 @@ class _Gen:
         if depth <= 0 or r.random() < 0.12:
             return self.leaf(size)
         for _ in range(6):
-            kind = r.choices(["fn", "opc", "opad", "matmul", "slice", "l2", "max", "same"], weights=[26, 20, 26, 9, 8, 5, 6, 2])[0]
+            kind = r.choices(["fn", "opc", "opad", "matmul", "slice", "l2", "max", "same", "setitem", "copy"], weights=[26, 20, 26, 9, 8, 5, 6, 2, 3, 1])[0]
             t = None
             if kind == "fn":
                 c = self.tree(depth - 1, size)
@@ -895,6 +952,11 @@ class _Gen:
                         t = {"k": "l2", "dim": dim, "a": c}
             elif kind == "max":
                 t = self.mk_max(size, depth)
+            elif kind == "setitem":
+                t = self.mk_setitem(size, depth)
+            elif kind == "copy":
+                c = self.tree(depth - 1, size)
+                t = c and {"k": "copy", "a": c}
             if t and self.ok(t):
                 return t
         return self.leaf(size)
@@ -904,14 +966,14 @@ def _finish(g, tree, kind):
     return {"kind": kind, "vars": [[frac(x) for x in v] for v in g.vars], "lets": g.lets, "tree": tree}
 
 
-def _gen_smooth(rng, tier):
+def _gen_smooth(rng, tier, size1=False):
     for _ in range(50):
         g = _Gen(rng, tier)
         depth = rng.choice([1, 2, 3, 3, 4, 4, 5])
-        size = rng.randint(1, 6)
+        size = 1 if size1 else rng.randint(1, 6)
         # shared sub-expressions: results (and variables) that several later operations use as the same python object
         for _ in range(rng.choice([0, 0, 1, 1, 2, 3])):
-            n = size if rng.random() < 0.75 else rng.randint(1, 6)
+            n = size if (size1 or rng.random() < 0.75) else rng.randint(1, 6)
             d = g.tree(rng.choice([1, 1, 2, 3]), n)
             if d is not None and d["k"] not in ("var", "ref") and g.ok(d):
                 g.lets.append(d)
@@ -1004,13 +1066,105 @@ def _gen_error(rng, tier):
     return _finish(g, t, "error")
 
 
+def _gen_empty(rng, tier):
+    """size 0: an empty variable (plus possibly a non-empty one) through unary functions, scalar arithmetic, itself, (rows x 0) matrices"""
+    g = _Gen(rng, tier)
+    g.vars.append(np.array([]))
+    if rng.random() < 0.5:
+        g.new_var(rng.randint(1, 3))
+    t = {"k": "var", "i": 0}
+    for _ in range(rng.randint(1, 4)):
+        m = rng.choice(["fn", "S", "same", "slice"])
+        if m == "fn":
+            t = {"k": "fn", "f": rng.choice(["sin", "exp", "abs", "neg", "tanh"]), "p": [], "a": t}
+        elif m == "S":
+            t = {"k": "op", "op": rng.choice(["add", "mul", "rsub", "truediv", "pow"]), "kind": "S", "c": frac(g.fl(0.5, 3)), "syntax": True, "a": t}
+        elif m == "same":
+            t = {"k": "op", "op": rng.choice(["add", "mul", "sub"]), "kind": "Ad", "b": "same", "syntax": True, "a": t}
+        else:
+            t = {"k": "slice", "key": {"t": "slice", "start": 0, "stop": None, "step": 1}, "a": t}
+    if rng.random() < 0.5:
+        rows = rng.randint(1, 3)
+        t = {"k": "op", "op": "rmatmul", "kind": "Sp", "m": [[] for _ in range(rows)], "cols": 0, "fmt": rng.choice(["csr", "csc"]), "syntax": True, "a": t}
+    return _finish(g, t, "smooth")
+
+
+def _gen_scaled(rng, tier):
+    """extreme scale: inputs of magnitude 1e-8 .. 1e8 through + - * and constant divisors / matrices (no cancellation-prone functions)"""
+    g = _Gen(rng, tier)
+    size = rng.randint(1, 5)
+    sc = [10.0 ** rng.choice([-8, -6, -3, 3, 6, 8]) for _ in range(2)]
+    for k in range(2):
+        g.vars.append(np.array([g.fl(0.5, 2.0) * rng.choice([-1, 1]) * sc[k] for _ in range(size)]))
+    t = {"k": "var", "i": 0}
+    for _ in range(rng.randint(2, 5)):
+        m = rng.choice(["mulAd", "addAd", "S", "A", "mat", "neg"])
+        other = {"k": "var", "i": rng.randrange(2)}
+        if m == "mulAd":
+            t = {"k": "op", "op": rng.choice(["mul", "rmul"]) if False else "mul", "kind": "Ad", "b": other, "syntax": True, "a": t}
+        elif m == "addAd":
+            t = {"k": "op", "op": rng.choice(["add", "sub", "rsub", "radd"]), "kind": "Ad", "b": other, "a": t}
+        elif m == "S":
+            t = {"k": "op", "op": rng.choice(["mul", "truediv", "rmul"]), "kind": "S", "c": frac(g.fl(0.5, 3) * 10.0 ** rng.choice([-4, 0, 4])), "syntax": True, "a": t}
+        elif m == "A":
+            t = {"k": "op", "op": rng.choice(["add", "rsub", "mul"]), "kind": "A", "c": [frac(g.fl(0.5, 3) * sc[0]) for _ in range(size)], "a": t}
+        elif m == "mat":
+            t = g.mk_matmul(t, size, size)
+        else:
+            t = {"k": "fn", "f": "neg", "p": [], "a": t}
+    return _finish(g, t, "smooth")
+
+
+def _gen_repeat(rng, tier):
+    """the same operation applied 6-12 times in a row"""
+    g = _Gen(rng, tier)
+    size = rng.randint(1, 4)
+    x = {"k": "var", "i": g.new_var(size)}
+    g.vars[0] = np.clip(g.vars[0], -1.2, 1.2)
+    t = x
+    mode = rng.choice(["fn", "mul", "add", "sub", "neg", "pow2", "div"])
+    for _ in range(rng.randint(6, 12)):
+        if mode == "fn":
+            t = {"k": "fn", "f": "sin", "p": [], "a": t}
+        elif mode == "neg":
+            t = {"k": "fn", "f": "neg", "p": [], "a": t}
+        elif mode == "pow2":
+            t = {"k": "op", "op": "rpow", "kind": "S", "c": "1/2", "syntax": True, "a": t}
+        elif mode == "div":
+            t = {"k": "op", "op": "rtruediv", "kind": "S", "c": "1", "syntax": True, "a": {"k": "op", "op": "add", "kind": "S", "c": "2", "a": t}}
+        else:
+            t = {"k": "op", "op": mode, "kind": "Ad", "b": x, "syntax": True, "a": t}
+    if mode == "fn":
+        for n_ in _nodes(t):
+            if n_["k"] == "fn":
+                n_["f"] = rng.choice(["sin", "tanh", "arctan", "cos"]) if rng.random() < 0.0 else n_["f"]
+    return _finish(g, t, "smooth")
+
+
 def gen_case(rng, tier):
     u = rng.random()
     if u < 0.06:
-        return _gen_error(rng, tier)
-    if u < 0.11:
-        return _gen_kink(rng, tier)
-    return _gen_smooth(rng, tier)
+        c = _gen_error(rng, tier)
+        c["stratum"] = "error"
+    elif u < 0.11:
+        c = _gen_kink(rng, tier)
+        c["stratum"] = "kink"
+    elif u < 0.15:
+        c = _gen_smooth(rng, tier, size1=True)
+        c["stratum"] = "size-1"
+    elif u < 0.17:
+        c = _gen_empty(rng, tier)
+        c["stratum"] = "size-0"
+    elif u < 0.21:
+        c = _gen_scaled(rng, tier)
+        c["stratum"] = "extreme-scale"
+    elif u < 0.25:
+        c = _gen_repeat(rng, tier)
+        c["stratum"] = "repeated-operation"
+    else:
+        c = _gen_smooth(rng, tier)
+        c["stratum"] = "general"
+    return c
 
 
 # ----------------------------------------------------------------------------- bookkeeping
@@ -1102,7 +1256,7 @@ def shrink_candidates(case):
 
 def stats(cases, impl_outs):
     from collections import Counter
-    kinds, nodes, depths, sizes, nv, nlets = Counter(), Counter(), Counter(), Counter(), Counter(), Counter()
+    kinds, nodes, depths, sizes, nv, nlets, strata = Counter(), Counter(), Counter(), Counter(), Counter(), Counter(), Counter()
     reused = 0
     for c in cases:
         kinds[c.get("kind", "?")] += 1
@@ -1111,12 +1265,22 @@ def stats(cases, impl_outs):
         for n in _case_nodes(c):
             nodes[_node_name(n)] += 1
         nlets[len(c.get("lets", []))] += 1
+        strata[c.get("stratum", "corpus")] += 1
+        for n in _case_nodes(c):
+            if n["k"] in ("slice", "setitem") and n["key"]["t"] == "arr":
+                idx = n["key"]["idx"]
+                strata["index-array with repeated rows" if len(set(idx)) < len(idx) else "index-array permuted / unsorted" if idx != sorted(idx) else "index-array sorted"] += 1
+            if n["k"] == "slice" and n["key"]["t"] == "slice" and (n["key"]["step"] or 1) < 0:
+                strata["slice with negative step"] += 1
+            if n["k"] == "slice" and n["key"]["t"] == "int" and n["key"]["i"] < 0:
+                strata["negative integer index"] += 1
         if any(v >= 2 for v in _shared_uses(c).values()):
             reused += 1
     for o in impl_outs:
         sizes[len(o["val"]) if "val" in o else "err:" + o.get("err", "?")] += 1
     return {"case_kinds": dict(kinds), "tree_depth": {str(k): v for k, v in sorted(depths.items())}, "n_variables": {str(k): v for k, v in sorted(nv.items())},
             "output_size_or_error": {str(k): v for k, v in sorted(sizes.items(), key=lambda kv: str(kv[0]))},
+            "strata": dict(sorted(strata.items())),
             "shared_results_per_case": {str(k): v for k, v in sorted(nlets.items())},
             "cases_using_one_AdArray_object_at_least_twice": reused,
             "node_kinds": dict(sorted(nodes.items())), "rules_generated": _TR.get("rules"),
